@@ -796,7 +796,7 @@ func rxClass(args []string, out string) string {
 
 func init() {
 	register(&stream{name: "regex.match", gen: genRegexMatch, impl: implRegexMatch, prop: propRegexMatch,
-		class: rxClass,
+		class:      rxClass,
 		nontrivial: func(args []string, out string) bool { return out != "err" && !strings.HasPrefix(out, "bad") }})
 	register(&stream{name: "regex.sem", gen: genRegexSem, impl: implRegexSem, prop: propRegexSem,
 		class: func(args []string, out string) string {
